@@ -107,6 +107,17 @@ static_assert(Api64::NOP__INTERFACE::Hash == kApi64Hash, "W:interface.hash64");
 static_assert(Api64::Sum::Selector == refsip::of("Sum", kApi64Hash, kInterfaceKey1), "W:selector.sum64");
 static_assert(Api64::LongerMethodName::Selector == refsip::of("LongerMethodName", kApi64Hash, kInterfaceKey1), "W:selector.long64");
 static_assert(Api64::Fixed::Selector == 99, "W:selector.fixed");
+// The selector is the hash of the method name AS WRITTEN: a method name that happens to be an object-like macro in one
+// translation unit (SendMessage -> SendMessageW) must still hash the spelled token, or differently configured peers disagree.
+#define SendMessage SendMessageW
+struct ApiMacro : nop::Interface<ApiMacro> {
+  NOP_INTERFACE("io.github.eieio.ApiMacro");
+  NOP_METHOD(SendMessage, void(int));
+  NOP_INTERFACE_API(SendMessage);
+};
+#undef SendMessage
+constexpr std::uint64_t kApiMacroHash = refsip::of("io.github.eieio.ApiMacro", kInterfaceKey0, kInterfaceKey1);
+static_assert(ApiMacro::SendMessageW::Selector == refsip::of("SendMessage", kApiMacroHash, kInterfaceKey1), "W:selector.name_as_written");
 static_assert(sizeof(Api64::Sum::MethodSelector) == 8, "W:selector.width64");
 
 struct Api32 : nop::Interface<Api32> {
